@@ -14,14 +14,17 @@ VIOLATES_FN = "violates"
 RULE = ("case = history of 1-4 blocks of 1-6 txs on fresh accounts, through BeginBlock/DeliverTx/EndBlock/Commit; a tx is a "
         "Cosmos tx carrying 0-3 MsgEthereumTx (legacy/access-list/dynamic-fee; nonce exact/gap/stale/repeated; chain id "
         "ok/wrong/absent; signature ok/zero r/zero s/high s/flipped v/v=29; transfer, call, reverting call, create, reverting "
-        "create, out-of-gas create, gas below intrinsic; or the byte-identical resubmission of an earlier message) or a "
+        "create, out-of-gas create, gas below intrinsic, value-draining transfer / endowed create / endowed call that a later message "
+        "of the same tx can no longer afford; or the byte-identical resubmission of an earlier message; a closing block resubmits "
+        "every delivered message, optionally after re-funding) or a "
         "Cosmos-signed MsgSend with explicit sequence by the secp256k1 / eth_secp256k1 form of the same key; "
         "non-trivial = the history holds an accepted message AND a later rejected resubmission or stale/gapped nonce of the "
         "same signer, or a multi-message tx, or an accepted tx whose execution failed; distinct = distinct input")
 ASSUMPTIONS = [
     "the address a chain-agnostic ECDSA recovery yields for a tx (go-ethereum Homestead/London signer of the tx's OWN chain id) "
     "is an oracle value computed by the driver; the model decides acceptance from it, the carried chain id and the nonce",
-    "m_funded (balance/fee checks of the other decorators pass) is derived from which key signed (3 funded, 1 unfunded)",
+    "m_funded (balance/fee checks of the other decorators pass) and whether a message's value is still covered at execution are "
+    "derived by the driver from bank balances (each message against the pre-tx balance; values against what earlier messages left)",
     "uids identify transactions by their Ethereum hash (collision resistance of keccak256 is assumed by hash_binding)",
 ]
 TRUSTED = ["go-ethereum crypto (secp256k1, keccak) used by the driver to sign, tamper and recover"]
@@ -53,6 +56,8 @@ def to_coq_case(rec):
     for blk, dblk, oblk in zip(rec["input"], rec["der"], rec["obs"]):
         items = []
         for tx, d, o in zip(blk, dblk, oblk):
+            if tx["kind"] == "fund":
+                continue
             res = "{| r_accepted := %s; r_executed := [%s]; r_created := [%s] |}" % (
                 _b(o["accepted"]), "; ".join(str(u) for u in o["exec"]),
                 "; ".join("(%d, %s)" % (u, ("%d%%N" % k) if k >= 0 else "18446744073709551615%N") for u, k in o["created"]))
@@ -69,6 +74,8 @@ def _ms(tx):
 def _flat(rec):
     for blk, dblk, oblk in zip(rec["input"], rec["der"], rec["obs"]):
         for tx, d, o in zip(blk, dblk, oblk):
+            if tx["kind"] == "fund":
+                continue
             yield tx, (d or []), o
 
 
@@ -156,7 +163,7 @@ def shrink_candidates(inp):
     # drop a tx without eth messages (cosmos txs never shift message indices)
     for bi, b in enumerate(inp):
         for i, tx in enumerate(b):
-            if tx["kind"] == "cosmos" and len(b) > 1:
+            if tx["kind"] != "eth" and len(b) > 1:
                 out.append(inp[:bi] + [b[:i] + b[i + 1:]] + inp[bi + 1:])
     # merge all blocks into one
     if len(inp) > 1:
